@@ -54,6 +54,7 @@ typedef struct wr_env {
     int big_endian_image; /* model of a forced-big-endian runtime on a little-endian host */
     uint64_t fuel;        /* per top-level call; 0 = default */
     uint32_t max_depth;   /* 0 = default */
+    uint32_t page_cap;    /* embedder resource limit for memory.grow in pages (0 = the spec's 65536); the spec lets grow fail for lack of resources */
 } wr_env;
 
 typedef struct wr_instance {
